@@ -61,8 +61,19 @@ static void fill_comments(ob::ChangesetDiscussionBuilder& d, Buffer& buf, const 
     }
 }
 
+static void build_toplist(Buffer& buf, const MSub& s, int style);
+
 // one sub-list below an open parent builder
 static void build_sub(ob::Builder& parent, Buffer& buf, const MSub& s, int style) {
+    if (style == 3) {
+        // the list is built stand-alone in a scratch buffer and COPIED into the open object with Builder::add_item() - the way
+        // tag lists are taken over from one object into another (sizes of the parents must grow by the padded size of the copy)
+        Buffer tmp{2048, Buffer::auto_grow::yes};
+        build_toplist(tmp, s, 1);
+        tmp.commit();
+        parent.add_item(tmp.get<osmium::memory::Item>(0));
+        return;
+    }
     const bool ctor_ref = style != 0;    // the two sub-builder constructors
     switch (s.type) {
         case IT::tag_list:
